@@ -186,6 +186,13 @@ def _arg_thunks(rng):
     pks = [G2Basic.SkToPk(k) for k in sks]
     agg = G2Basic.Aggregate(sigs)
     out.append(("Aggregate(list)", lambda: (G2Basic.Aggregate, [list(sigs)])))
+    from py_ecc.bls import G2MessageAugmentation
+    for C in (G2MessageAugmentation, G2ProofOfPossession):
+        csigs = [C.Sign(k, m) for k, m in zip(sks, msgs)]
+        cagg = C.Aggregate(csigs)
+        out.append((C.__name__ + ".AggregateVerify(lists)", lambda C=C, cagg=cagg: (C.AggregateVerify, [list(pks), list(msgs), cagg])))
+        out.append((C.__name__ + ".Aggregate(list)", lambda C=C, csigs=csigs: (C.Aggregate, [list(csigs)])))
+        out.append((C.__name__ + ".Verify", lambda C=C, csigs=csigs: (C.Verify, [pks[0], bytearray(msgs[0]), csigs[0]])))
     out.append(("AggregateVerify(lists)", lambda: (G2Basic.AggregateVerify, [list(pks), list(msgs), agg])))
     out.append(("AggregateVerify(unsorted lists)", lambda: (G2Basic.AggregateVerify, [list(reversed(pks)), list(reversed(msgs)), agg])))
     popagg = G2ProofOfPossession.Aggregate([G2ProofOfPossession.Sign(k, b"m") for k in sks])
